@@ -30,8 +30,8 @@ package util
 //@   ensures r0 != nil
 
 // ---- ShardedMap, as seen by its clients (trusted contracts; A6: one call is one
-// atomic step).  Reads use the abstract map view mhas/mval; the view is not
-// updated by Set/Remove (nothing verified so far reads it after an update).
+// atomic step).  The map is an abstract map view mhas/mval of (object, key)
+// kept in the heap; updates are `modifies mview(l)`.
 
 //@ func (*ShardedMap).Value
 //@   trusted
@@ -39,18 +39,46 @@ package util
 //@   ensures found == mhas(l, k)
 //@   ensures found ==> v == mval(l, k, v)
 
+//@ func (*ShardedMap).Exists
+//@   trusted
+//@   pure
+//@   ensures r0 == mhas(l, k)
+
 //@ func (*ShardedMap).Traverse
 //@   trusted
 //@   loops f(tk, tv) -> keep
 //@   where mhas(l, tk) && tv == mval(l, tk, tv)
 //@   until !keep
 
+//@ func (*ShardedMap).SetValue
+//@   trusted
+//@   modifies mview(l)
+//@   ensures mhas(l, k) && mval(l, k, v) == v
+//@   ensures added == !old(mhas(l, k))
+//@   ensures forall(K(q), q != k ==> mhas(l, q) == old(mhas(l, q)) && mval(l, q, V) == old(mval(l, q, V)))
+
 //@ func (*ShardedMap).RemoveValue
 //@   trusted
+//@   modifies mview(l)
+//@   ensures !mhas(l, k)
+//@   ensures r0 == old(mhas(l, k))
+//@   ensures forall(K(q), q != k ==> mhas(l, q) == old(mhas(l, q)) && mval(l, q, V) == old(mval(l, q, V)))
 
 //@ func (*ShardedMap).Set
 //@   trusted
+//@   modifies mview(l)
 //@   calls f(sv, sfound) -> nv, serr
-//@   where sfound == mhas(l, k)
-//@   where sfound ==> sv == mval(l, k, sv)
-//@   ensures serr == nil ==> v == nv
+//@   where sfound == old(mhas(l, k))
+//@   where sfound ==> sv == old(mval(l, k, sv))
+//@   ensures serr == nil ==> v == nv && mhas(l, k) && mval(l, k, v) == nv
+//@   ensures forall(K(q), q != k ==> mhas(l, q) == old(mhas(l, q)) && mval(l, q, V) == old(mval(l, q, V)))
+
+
+//@ func (*ShardedMap).Remove
+//@   trusted
+//@   modifies mview(l)
+//@   calls f(rv, rfound) -> rerr
+//@   where rfound == old(mhas(l, k))
+//@   where rfound ==> rv == old(mval(l, k, rv))
+//@   ensures rerr == nil ==> r1 == nil && r0 == old(mhas(l, k)) && !mhas(l, k)
+//@   ensures forall(K(q), q != k ==> mhas(l, q) == old(mhas(l, q)) && mval(l, q, V) == old(mval(l, q, V)))
